@@ -1,12 +1,14 @@
 /*@unit {
- 'kind': 'bounded', 'mode': 'plain', 'solver': 'cadical',
- 'bound': 'free list of <= 3 chunks at symbolic offsets with symbolic sizes in an arena of 1 KiB, one arbitrary ghost live block, request size symbolic (all of size_t); inductive in history: the pre-state is ANY state satisfying HEAP within this bound; unwind 6 is complete for these list lengths (unwinding assertions)',
+ 'kind': 'bounded', 'mode': 'plain', 
+ 'bound': 'free list of <= 3 chunks at symbolic offsets with symbolic sizes in an arena of 128 bytes (thorough tier: also 256 bytes; 1 KiB does not finish: every access through a pointer loaded from the arena is a barrel shift over the whole arena), one arbitrary ghost live block, request size symbolic (all of size_t); inductive in history: the pre-state is ANY state satisfying HEAP within this bound; unwinding is complete for these list lengths (unwinding assertions)',
  'functions': ['malloc'],
  'extract': 'units/C10/heap_extract.py',
- 'clauses': 'malloc(len) from any state satisfying HEAP: the block returned is 8-aligned, has >= len usable bytes (header sz >= len), lies inside [heap_start, __brkval\') inside the arena, overlaps neither the ghost live block (arbitrary, hence no live block) nor any chunk remaining on the free list; HEAP is re-established (address order, no adjacent free chunks, sizes, alignment); the ghost live block keeps its header and every payload byte; live bytes grow by exactly the size of the new chunk (nothing is lost); __allocation_counter counts the live blocks; exact fit, whole-chunk fit, split and break extension are each reachable (one canary per path), also from the never-used heap (__brkval == NULL)',
- 'unwind': 6, 'complete_unwinding': 'the two free-list walks of malloc see at most 3 chunks; spec loops are bounded by C10_NCHUNK+1',
+ 'clauses': 'malloc(len) from any state satisfying HEAP: the block returned is 8-aligned, has >= len usable bytes (header sz >= len, >= 8), was carved out of a free chunk (whole, or its upper part leaving a free chunk that can hold a link) or out of new space at the break; it lies inside [heap_start, __brkval\') inside the arena, overlaps neither the ghost live block (arbitrary, hence no live block) nor any chunk remaining on the free list; HEAP is re-established and the real memory (__flp, every sz / nx field, __brkval) encodes exactly the derived state; the ghost live block keeps its header and every payload word; live bytes grow by exactly the new chunk (nothing lost); __allocation_counter counts the live blocks; exact fit, whole-chunk fit, split and break extension are each reachable (one canary per path), also from the never-used heap (__brkval == NULL)',
+ 'params': {'C10_ARENA': [128]}, 'params_thorough': {'C10_ARENA': [128, 256]},
+ 'unwindset': ['lin_malloc.0:4'], 'unwind': 6, 'complete_unwinding': 'the free-list walk of malloc sees at most 3 chunks (unwound 4 times, unwinding assertion); spec loops are bounded by C10_MAXN = 5',
  'kf': ['C10_malloc_never_fails', 'C10_malloc_round_wrap', 'C10_malloc_counter_limit'],
- 'canaries': 5, 'timeout': 600, 'weight': 2,
+ 'kf_probe_case': {'C10_malloc_never_fails': {'C10_ARENA': 128}, 'C10_malloc_round_wrap': {'C10_ARENA': 128}, 'C10_malloc_counter_limit': {'C10_ARENA': 128}},
+ 'canaries': 6, 'timeout': 900, 'weight': 2,
  'witness': {'unwind': 6},
 } @*/
 #include "vc.h"
@@ -17,49 +19,47 @@ void harness(void)
 {
     /* offsets and sizes in words (H1: everything is 8-aligned) */
     WIT(uchar, nf); WIT_ARR(uchar, wfo, C10_NCHUNK); WIT_ARR(uchar, wfs, C10_NCHUNK); WIT(uchar, wbrk); WIT(uchar, fresh);
-    WIT(uchar, hasL); WIT(uchar, wLo); WIT(uchar, wLs); WIT(size_t, b); WIT(int, nlive); WIT(size_t, len);
-    size_t fo[C10_NCHUNK], fs[C10_NCHUNK];
-    for (int i = 0; i < C10_NCHUNK; i++) { fo[i] = 8 * (size_t)wfo[i]; fs[i] = 8 * (size_t)wfs[i]; }
-    C10_HEAP_STATE(nf, fo, fs, 8 * (size_t)wbrk, fresh, hasL, 8 * (size_t)wLo, 8 * (size_t)wLs, nlive);
-    __CPROVER_assume(!fresh || nlive == 0);
-    size_t live0 = c10_live_bytes(c10_brk, c10_nf, c10_fs);
-    __CPROVER_assume(!c10_hasL || b < c10_Ls);
-    char old_b = c10_hasL ? c10_arena[c10_Lo + C10_HDR + b] : 0;
+    WIT(uchar, hasL); WIT(uchar, wLo); WIT(uchar, wLs); WIT(uchar, bw); WIT(int, nlive); WIT(size_t, len);
+    C10_HEAP_STATE(nf, wfo, wfs, wbrk, fresh, hasL, wLo, wLs, nlive);
+    size_t live0 = c10_abs_live(&c10_pre);
+    __CPROVER_assume(!c10_hasL || bw < c10_Ls);
+    size_t old_w = c10_hasL ? C10_W(c10_Lo + 1 + bw) : 0;
 
     /* known findings (regions over the inputs) */
-    int wrap = len > (size_t)-1 - (__WORDSIZE - 1);                   /* rounding up overflows size_t */
+    int wrap = C10_ROUND_WRAPS(len);                          /* rounding up overflows size_t */
     size_t rl = c10_rounded(len);
-    int nofit = !wrap && !c10_fits_free(rl) && (rl > C10_ARENA || c10_brk + C10_HDR + rl > C10_ARENA);
+    int nofit = !c10_fits_free(&c10_pre, rl) && (rl > C10_ARENA || 8 * c10_pre.brk + 8 + rl > C10_ARENA);
     __CPROVER_assume(KF_C10_malloc_round_wrap == 0 ? 1 : KF_C10_malloc_round_wrap == 1 ? !wrap : wrap);
     __CPROVER_assume(KF_C10_malloc_never_fails == 0 ? 1 : KF_C10_malloc_never_fails == 1 ? !nofit : nofit);
-    __CPROVER_assume(KF_C10_malloc_counter_limit == 0 ? 1 : KF_C10_malloc_counter_limit == 1 ? nlive < 99 : nlive >= 99);
+    __CPROVER_assume(KF_C10_malloc_counter_limit == 0 ? 1 : KF_C10_malloc_counter_limit == 1 ? nlive < 99 : (nlive >= 99 && !wrap && !nofit));
 
     char *r = lin_malloc(len);
 
-    size_t po[C10_NCHUNK + 2], ps[C10_NCHUNK + 2];
-    int n = c10_heap_walk(po, ps);
-    size_t brk1 = c10_brk_now();
-    __CPROVER_assert(n >= 0 && brk1 != (size_t)-1 && c10_shape_ok((uint)n, po, ps, brk1),
-                     "malloc: HEAP re-established (address-ordered, non-adjacent, aligned free chunks inside [heap_start, __brkval), break inside the arena)");
+    struct c10_abs post = c10_pre;
     if (r) {
-        __CPROVER_assert(C10_IN_ARENA(r) && C10_OFF(r) >= C10_HDR && C10_AL8(C10_OFF(r)), "malloc: result is 8-aligned and inside the arena");
-        size_t ro = C10_OFF(r) - C10_HDR;
-        size_t rs = *(size_t *)(c10_arena + ro);
-        __CPROVER_assert(rs >= len && rs >= sizeof(void *), "malloc: the block has at least len usable bytes (and can hold a free-list link later)");
-        __CPROVER_assert(c10_block_ok(ro, rs, (uint)n, po, ps, brk1), "malloc: the block lies inside [heap_start, __brkval) and overlaps no chunk left on the free list");
+        __CPROVER_assert(C10_IN_ARENA(r) && C10_OFF(r) >= 8 && C10_OFF(r) % 8 == 0 && C10_OFF(r) < C10_ARENA, "malloc: result is 8-aligned and inside the arena");
+        size_t ro = C10_OFF(r) / 8 - 1;
+        size_t rsb = C10_W(ro);
+        __CPROVER_assert(rsb >= len && rsb >= sizeof(void *) && rsb % 8 == 0, "malloc: the block has at least len usable bytes (and can hold a free-list link later)");
+        size_t rs = rsb / 8;
+        int how = c10_abs_alloc(&post, ro, rs);
+        __CPROVER_assert(how != 0, "malloc: the block is a whole free chunk, the upper part of one (leaving a free chunk), or new space at the break");
+        __CPROVER_assert(c10_abs_block_ok(&post, ro, rs), "malloc: the block lies inside [heap_start, __brkval) and overlaps no chunk left on the free list");
         if (c10_hasL)
-            __CPROVER_assert(ro + C10_HDR + rs <= c10_Lo || c10_Lo + C10_HDR + c10_Ls <= ro, "malloc: the block overlaps no live block");
-        __CPROVER_assert(c10_live_bytes(brk1, (uint)n, ps) == live0 + C10_HDR + rs, "malloc: live bytes grow by exactly the new chunk (no memory lost)");
+            __CPROVER_assert(ro + 1 + rs <= c10_Lo || c10_Lo + 1 + c10_Ls <= ro, "malloc: the block overlaps no live block");
+        __CPROVER_assert(c10_abs_live(&post) == live0 + 1 + rs, "malloc: live bytes grow by exactly the new chunk (no memory lost)");
         __CPROVER_assert(__allocation_counter == nlive + 1, "malloc: __allocation_counter counts the live blocks");
-        if (brk1 > c10_brk) CANARY("malloc path: break extended");
-        if (brk1 == c10_brk && n == (int)c10_nf) CANARY("malloc path: free chunk split");
-        if (brk1 == c10_brk && n + 1 == (int)c10_nf && c10_fits_free(rl) && rs == rl) CANARY("malloc path: exact fit");
-        if (brk1 == c10_brk && n + 1 == (int)c10_nf && rs > rl) CANARY("malloc path: whole chunk (remainder too small to split)");
+        if (how == 3 && !fresh) CANARY("malloc path: break extended");
+        if (how == 3 && fresh) CANARY("malloc path: first allocation of a never-used heap");
+        if (how == 2) CANARY("malloc path: free chunk split");
+        if (how == 1 && rsb == rl) CANARY("malloc path: exact fit");
+        if (how == 1 && rsb > rl) CANARY("malloc path: whole chunk (remainder too small to split)");
     }
+    __CPROVER_assert(c10_abs_ok(&post), "malloc: HEAP re-established (address-ordered, non-adjacent free chunks inside [heap_start, __brkval), break inside the arena)");
+    __CPROVER_assert(c10_mem_is(&post), "malloc: __flp, the sz / nx fields of every free chunk and __brkval encode exactly that state");
     if (c10_hasL) {
-        __CPROVER_assert(*(size_t *)(c10_arena + c10_Lo) == c10_Ls && c10_arena[c10_Lo + C10_HDR + b] == old_b,
-                         "malloc: header and contents of a live block untouched");
-        __CPROVER_assert(c10_block_ok(c10_Lo, c10_Ls, (uint)n, po, ps, brk1), "malloc: a live block stays inside the heap and off the free list");
+        __CPROVER_assert(C10_W(c10_Lo) == 8 * c10_Ls && C10_W(c10_Lo + 1 + bw) == old_w, "malloc: header and contents of a live block untouched");
+        __CPROVER_assert(c10_abs_block_ok(&post, c10_Lo, c10_Ls), "malloc: a live block stays inside the heap and off the free list");
     }
     CANARY("heap_malloc end reachable");
 }
